@@ -93,3 +93,15 @@ def truncated_by_failed_write(ename, case, fail, obs):
     if ename != "faults" or case.get("kind") != "write" or fail[1] != "old_or_new":
         return False
     return fail[2].rstrip().endswith(": ''")
+
+
+def complex_parens_grow(ename, case, fail, obs):
+    """KF-C08-2: a complex number is written with its repr parentheses; they are not part of the node, so an
+    update run reports it again (and nests another pair inside containers)."""
+    if ename != "values" or fail[1] not in ("rerun_noop", "nothing_pending"):
+        return False
+    if "complex" not in case.get("tags", []):
+        return False
+    a, b = obs.get("arg") or "", obs.get("arg2") or ""
+    strip = lambda t: t.replace("(", "").replace(")", "").replace(" ", "")
+    return "j" in a and strip(a) == strip(b)
